@@ -324,3 +324,241 @@ Proof.
   intros Hwf Hl Hinv. rewrite (np_risk_code u inv (Some sd) d t hmm Hwf Hl).
   rewrite (risk_code_model u inv (inr sd) d) by (left; exact Hinv). reflexivity.
 Qed.
+
+(** * diagnosis_prob
+    prob = 1.0
+    for name, modality in self.get_all_modalities().items():
+        if name in diagnosis:
+            mod_diagnosis = diagnosis[name]
+            for lnl in self.graph.lnls.values():
+                try: lnl_diagnosis = mod_diagnosis[lnl.name]
+                except KeyError: continue
+                except IndexError as idx_err: raise ValueError(...) from idx_err          (dead: a dict lookup)
+                prob *= lnl.comp_obs_prob(lnl_diagnosis, modality.confusion_matrix)
+    return prob
+    [nodes] = the LNL nodes, each read as (name, current state); [cm modality] = modality.confusion_matrix;
+    [cop node obs table] = node.comp_obs_prob(obs, table) *)
+(** [pattern[key]]: [None] = KeyError, [Some v] = the stored value ([v = None]: the value None / NaN) *)
+Fixpoint pat_find (l : string) (p : pattern) : option (option indicator) :=
+  match p with [] => None | (k, v) :: r => if str_eqb l k then Some v else pat_find l r end.
+
+Definition np_diagnosis_prob (mods : list (string * modality)) (cm : modality -> mat) (nodes : list (string * nat))
+  (cop : string * nat -> option indicator -> mat -> Qc) (diagnosis : diagnosis) : Qc :=
+  let prob := 1 in
+  let prob := fold_left (fun (prob : Qc) '(name, modality) =>
+      match diag_get name diagnosis with
+      | None => prob
+      | Some mod_diagnosis =>
+          let prob := fold_left (fun (prob : Qc) (lnl : string * nat) =>
+              match pat_find (fst lnl) mod_diagnosis with
+              | None => prob
+              | Some lnl_diagnosis =>
+                  let prob := prob * cop lnl lnl_diagnosis (cm modality) in
+                  prob
+              end) nodes prob in
+          prob
+      end) mods prob in
+  prob.
+
+(** [AbstractNode.comp_obs_prob(obs, obs_table)] for a node in state [snd node] (obligation comp_obs_prob of
+    harness/translate2.py): an unknown finding is the factor 1, else the table entry *)
+Definition obs_prob_reading (node : string * nat) (obs : option indicator) (table : mat) : Qc :=
+  match obs with None => 1 | Some ind => mget table (snd node) (obs_of_indicator ind) end.
+
+Lemma pat_get_find l p : pat_get l p = match pat_find l p with Some v => v | None => None end.
+Proof.
+  induction p as [|[k v] p IH]; cbn [pat_get pat_find]; [reflexivity|]. destruct (str_eqb l k); [reflexivity|exact IH].
+Qed.
+
+Theorem np_diagnosis_prob_model b mods lnl_names x d :
+  np_diagnosis_prob mods (confusion_matrix b) (combine lnl_names x) obs_prob_reading d
+  = diagnosis_prob b mods lnl_names x d.
+Proof.
+  unfold np_diagnosis_prob, diagnosis_prob. cbv zeta.
+  apply fold_left_ext2. intros pr [name m]. destruct (diag_get name d) as [pat|]; [|reflexivity].
+  apply fold_left_ext2. intros pr' [l s]. cbn [fst]. rewrite pat_get_find.
+  destruct (pat_find l pat) as [[ind|]|]; unfold obs_prob_reading, conf; cbn [snd]; [reflexivity|ring|reflexivity].
+Qed.
+
+(** * observation_matrix
+    return matrix.generate_observation(modalities=self.get_all_modalities().values(), num_lnls=len(self.graph.lnls),
+                                       base=3 if self.is_trinary else 2) *)
+Definition np_observation_matrix (modalities : list modality) (lnl_names : list string) (is_trinary : bool) : mat :=
+  generate_observation modalities (length lnl_names) (if is_trinary then 3 else 2)%nat.
+
+Theorem np_observation_matrix_model u : wf_graphb (u_graph u) = true ->
+  np_observation_matrix (map snd (u_mods u)) (u_lnls u) (Nat.eqb (u_base u) 3) = observation_matrix u.
+Proof.
+  intros Hwf. unfold np_observation_matrix, observation_matrix, u_base. rewrite (is_trinary_base _ Hwf). reflexivity.
+Qed.
+
+(** * diagnosis_matrix
+    _hash = hash((t_stage, self.modalities_hash(), self._cache_version))
+    if _hash not in self._diagnosis_matrix_cache:
+        self._diagnosis_matrix_cache[_hash] = (self.observation_matrix() @ self.data_matrix(t_stage).T)
+    return self._diagnosis_matrix_cache[_hash].T
+    (the cache is transparent; [data_matrix t_stage] = the boolean data matrix, one row per patient, or an exception) *)
+(** [A @ B] for two 2-D arrays *)
+Definition np_matmul (A B : mat) : mat := map (fun r => np_vecmat r B) A.
+
+Definition np_diagnosis_matrix (observation_matrix : mat) (data_matrix : option string -> res (list bvec))
+  (t_stage : option string) : res mat :=
+  bind (data_matrix t_stage) (fun x =>
+  let cached := np_matmul observation_matrix (map (map b2q) (np_transpose false x)) in
+  inr (np_transpose 0 cached)).
+
+Lemma nth_map_default {A B} (h : A -> B) (da : A) (db : B) : forall l j, (j < length l)%nat ->
+  nth j (map h l) db = h (nth j l da).
+Proof. induction l as [|a l IH]; intros [|j] H; cbn [length map nth] in *; try lia; [reflexivity|]. apply IH. lia. Qed.
+
+(** the transpose of a matrix given entry-wise: rows indexed by [la] (not empty), columns by [lb] *)
+Lemma np_transpose_tab {A B C} (d : C) (db : B) (f : A -> B -> C) (la : list A) (lb : list B) : la <> [] ->
+  np_transpose d (map (fun a => map (f a) lb) la) = map (fun b => map (fun a => f a b) la) lb.
+Proof.
+  intros Hla. unfold np_transpose.
+  assert (W : match map (fun a => map (f a) lb) la with [] => 0%nat | r :: _ => length r end = length lb).
+  { destruct la as [|a la]; [congruence|]. cbn [map]. apply map_length. }
+  rewrite W.
+  transitivity (map (fun b => map (fun a => f a b) la) (map (fun i => nth i lb db) (seq 0 (length lb))));
+    [|rewrite map_nth_seq; reflexivity].
+  rewrite map_map.
+  apply map_ext_in. intros j Hj. apply in_seq in Hj. rewrite map_map. apply map_ext. intros a.
+  apply nth_map_default. lia.
+Qed.
+
+Lemma np_transpose_b2q (D : list bvec) : map (map b2q) (np_transpose false D) = np_transpose 0 (map (map b2q) D).
+Proof.
+  unfold np_transpose.
+  replace (match map (map b2q) D with [] => 0%nat | r :: _ => length r end)
+    with (match D with [] => 0%nat | r :: _ => length r end)
+    by (destruct D as [|r D']; cbn [map]; [reflexivity|symmetry; apply map_length]).
+  rewrite map_map. apply map_ext. intros j. rewrite !map_map. apply map_ext. intros r.
+  change 0 with (b2q false). symmetry. apply map_nth.
+Qed.
+
+Lemma np_diagnosis_matrix_shape_eq N (O : mat) (D : list bvec) : (0 < N)%nat -> O <> [] ->
+  Forall (fun r => length r = N) O -> Forall (fun r => length r = N) D ->
+  np_transpose 0 (np_matmul O (map (map b2q) (np_transpose false D))) = map (fun enc => matvec O (map b2q enc)) D.
+Proof.
+  intros HN HO HrO HrD. rewrite np_transpose_b2q. unfold np_matmul.
+  rewrite (map_ext_in _ (fun o => map (fun enc => dot o (map b2q enc)) D)).
+  - rewrite (np_transpose_tab 0 [] (fun o enc => dot o (map b2q enc)) O D HO). reflexivity.
+  - intros o Ho. rewrite Forall_forall in HrO.
+    rewrite (np_vecmat_transpose N o (map (map b2q) D) HN (HrO o Ho)).
+    + rewrite map_map. reflexivity.
+    + apply Forall_forall. intros r Hr. apply in_map_iff in Hr. destruct Hr as [enc [<- Henc]].
+      rewrite map_length. rewrite Forall_forall in HrD. exact (HrD enc Henc).
+Qed.
+
+(** every row of the data matrix has one entry per column of the observation matrix *)
+Lemma patient_encoding_len lnls mods p e :
+  patient_encoding lnls mods p = inr e -> length e = (2 ^ (length mods * length lnls))%nat.
+Proof.
+  unfold patient_encoding.
+  set (step := fun (acc : res bvec) m =>
+      bind acc (fun enc =>
+        match diag_get m (p_find p) with
+        | None => inr (kron_bvec enc (repeat true (Nat.pow 2 (length lnls))))
+        | Some pat => match compute_encoding lnls pat 2 with
+                      | None => inl MValue
+                      | Some e => inr (kron_bvec enc e)
+                      end
+        end)).
+  assert (Hinl : forall e0 l, fold_left step l (inl e0) = inl e0).
+  { intros e0 l. induction l as [|m l IH]; [reflexivity|]. exact IH. }
+  assert (G : forall acc0, fold_left step mods (inr acc0) = inr e ->
+              length e = (length acc0 * 2 ^ (length mods * length lnls))%nat).
+  { induction mods as [|m mods IH]; intros acc0; cbn [fold_left length].
+    - intros E. inversion E. cbn [Nat.mul Nat.pow]. lia.
+    - unfold step at 2. cbn [bind]. destruct (diag_get m (p_find p)) as [pat|].
+      + destruct (compute_encoding lnls pat 2) as [e'|] eqn:Ec.
+        * intros E. rewrite (IH _ E), kron_bvec_len, (compute_encoding_len _ _ 2 _ eq_refl Ec).
+          cbn [Nat.mul]. rewrite Nat.pow_add_r. lia.
+        * rewrite Hinl. discriminate.
+      + intros E. rewrite (IH _ E), kron_bvec_len, repeat_length. cbn [Nat.mul]. rewrite Nat.pow_add_r. lia. }
+  intros E. rewrite (G [true] E). cbn [length]. lia.
+Qed.
+
+Lemma sequence_map_Forall' {A B} (f : A -> res B) (P : B -> Prop) : (forall a b, f a = inr b -> P b) ->
+  forall l bs, sequence (map f l) = inr bs -> Forall P bs.
+Proof.
+  intros H. induction l as [|a l IH]; intros bs; cbn [map sequence].
+  - intros E. inversion E. constructor.
+  - destruct (f a) as [e|b] eqn:Ea; cbn [bind]; [discriminate|].
+    destruct (sequence (map f l)) as [e|t]; cbn [bind]; [discriminate|].
+    intros E. inversion E. constructor; [exact (H a b Ea)|apply IH; reflexivity].
+Qed.
+
+Lemma data_matrix_rows u data t D : data_matrix u data t = inr D ->
+  Forall (fun r => length r = (2 ^ (length (u_mods u) * u_n u))%nat) D.
+Proof.
+  unfold data_matrix. apply sequence_map_Forall'. intros p e E.
+  rewrite (patient_encoding_len _ _ _ _ E). unfold u_mod_names. rewrite map_length. reflexivity.
+Qed.
+
+Theorem np_diagnosis_matrix_model u data t : wf_graphb (u_graph u) = true ->
+  np_diagnosis_matrix (observation_matrix u) (data_matrix u data) t = diagnosis_matrix u data t.
+Proof.
+  intros Hwf. unfold np_diagnosis_matrix, diagnosis_matrix.
+  destruct (data_matrix u data t) as [e|D] eqn:ED; cbn [bind]; [reflexivity|]. cbv zeta. f_equal.
+  apply (np_diagnosis_matrix_shape_eq (2 ^ (length (u_mods u) * u_n u))).
+  - assert (2 ^ (length (u_mods u) * u_n u) <> 0)%nat by (apply Nat.pow_nonzero; lia). lia.
+  - pose proof (nstates_pos _ Hwf) as Hp. destruct (observation_matrix_shape u Hwf) as [Hlen _].
+    intros E. rewrite E in Hlen. cbn [length] in Hlen. unfold u_base, u_n in Hlen. lia.
+  - apply (observation_matrix_shape u Hwf).
+  - apply (data_matrix_rows u data t D ED).
+Qed.
+
+(** * obs_list
+    possible_obs_list = []
+    for modality in self.get_all_modalities().values():
+        possible_obs = np.arange(modality.confusion_matrix.shape[1])
+        for _ in self.graph.lnls: possible_obs_list.append(possible_obs.copy())
+    return np.array(list(product( *possible_obs_list ))) *)
+(** [M.shape[1]] (of a 2-D array with at least one row) *)
+Definition np_shape1 (M : mat) : nat := ncols M.
+(** [np.array(list(product( *lists )))]: the cartesian product in lexicographic order, one row per tuple *)
+Definition np_product (ls : list (list nat)) : list (list nat) :=
+  fold_right (fun l acc => flat_map (fun a => map (cons a) acc) l) [[]] ls.
+
+Definition np_obs_list (modalities : list modality) (cm : modality -> mat) (lnl_names : list string) : list state :=
+  let possible_obs_list : list (list nat) := [] in
+  let possible_obs_list := fold_left (fun (possible_obs_list : list (list nat)) (modality : modality) =>
+      let possible_obs := seq 0 (np_shape1 (cm modality)) in
+      let possible_obs_list := fold_left (fun (possible_obs_list : list (list nat)) (_ : string) =>
+          let possible_obs_list := possible_obs_list ++ [possible_obs] in
+          possible_obs_list) lnl_names possible_obs_list in
+      possible_obs_list) modalities possible_obs_list in
+  np_product possible_obs_list.
+
+Lemma np_product_repeat b : forall k, np_product (repeat (seq 0 b) k) = all_states b k.
+Proof. induction k as [|k IH]; cbn [repeat np_product fold_right all_states]; [reflexivity|]. fold (np_product (repeat (seq 0 b) k)). rewrite IH. reflexivity. Qed.
+
+Lemma fold_append_repeat {A B} (x : A) : forall (names : list B) (l0 : list A),
+  fold_left (fun (l : list A) (_ : B) => l ++ [x]) names l0 = l0 ++ repeat x (length names).
+Proof.
+  induction names as [|n names IH]; intros l0; cbn [fold_left length repeat]; [rewrite app_nil_r; reflexivity|].
+  rewrite IH, <- app_assoc. reflexivity.
+Qed.
+
+Lemma repeat_add {A} (x : A) a b : repeat x (a + b) = repeat x a ++ repeat x b.
+Proof. induction a as [|a IH]; cbn [Nat.add repeat app]; [reflexivity|]. rewrite IH. reflexivity. Qed.
+
+Lemma confusion_ncols b m : ncols (confusion_matrix b m) = 2%nat.
+Proof. unfold confusion_matrix. destruct (Nat.eqb b 3); [destruct (m_path m)|]; reflexivity. Qed.
+
+Theorem np_obs_list_eq b (mods : list modality) (names : list string) :
+  np_obs_list mods (confusion_matrix b) names = obs_list (length mods) (length names).
+Proof.
+  unfold np_obs_list, obs_list. cbv zeta.
+  assert (G : forall l0, fold_left (fun (l : list (list nat)) (m : modality) =>
+      fold_left (fun (l : list (list nat)) (_ : string) => l ++ [seq 0 (np_shape1 (confusion_matrix b m))]) names l)
+      mods l0 = l0 ++ repeat (seq 0 2) (length mods * length names)).
+  { induction mods as [|m mods IH]; intros l0; cbn [fold_left length Nat.mul repeat]; [rewrite app_nil_r; reflexivity|].
+    rewrite IH, fold_append_repeat. unfold np_shape1. rewrite confusion_ncols, repeat_add, app_assoc. reflexivity. }
+  rewrite G. cbn [app]. apply np_product_repeat.
+Qed.
+
+Theorem np_obs_list_model u :
+  np_obs_list (map snd (u_mods u)) (confusion_matrix (u_base u)) (u_lnls u) = u_obs_list u.
+Proof. rewrite np_obs_list_eq. unfold u_obs_list. rewrite map_length. reflexivity. Qed.
